@@ -21,7 +21,8 @@ TECHNIQUE = "fault enumeration on the cache file the library itself wrote: every
 RULE = (
     "case = (configuration from a fixed pool covering full and minimal storage formats with and without recorded filters, fault). "
     "Faults: missing, empty, truncate@k, corrupt@k (xor 0xFF / xor 0x01 / zero), interrupted@op k (+ half of that write), "
-    "live write error at write k (transient / persistent) then a plain request, foreign file differing in exactly one field. "
+    "live write error at write k (transient / persistent) then a plain request, foreign file differing in exactly one field, "
+    "file-name collision (two configurations found by birthday search whose cache file names coincide, requested one after the other). "
     "evaluations = (config, fault) pairs; non-trivial = the damaged file is non-empty and differs from the intact file."
 )
 ASSUMPTIONS = [
@@ -34,7 +35,7 @@ ASSUMPTIONS = [
 POOL = {
     "A-full": {"name": "a", "grid_n": 3, "n_mazes": 4, "ctor": "gen_dfs", "kwargs": {}, "seed": 1},
     "B-full-filters": {"name": "b", "grid_n": 4, "n_mazes": 6, "ctor": "gen_dfs_percolation", "kwargs": {"p": 0.3}, "seed": 2,
-                       "filters": [{"name": "path_length", "args": [], "kwargs": {"min_length": 2}}]},
+                       "filters": [{"name": "path_length", "args": [], "kwargs": {"min_length": 4}}]},
     "C-minimal": {"name": "c", "grid_n": 3, "n_mazes": 100, "ctor": "gen_dfs", "kwargs": {}, "seed": 3},
     "D-wilson": {"name": "d", "grid_n": 5, "n_mazes": 3, "ctor": "gen_wilson", "kwargs": {}, "seed": 4},
     "E-endpoints": {"name": "e", "grid_n": 4, "n_mazes": 5, "ctor": "gen_dfs", "kwargs": {"do_forks": False}, "seed": 5,
@@ -284,6 +285,21 @@ def check(case: dict):
                     damaged = f.read()
             _verify_request(sig, spec, td, path, fresh)
             return {"nt": bool(damaged) and damaged != intact, "labels": labels}
+        elif kind == "collision":
+            # two different configurations whose cache file names coincide (the name carries only five digits of the hash): the
+            # first request leaves its file under the shared name, the second request finds it there
+            s1, s2 = _colliding_seeds(key, fault.get("skip", 0))
+            first, second = dict(spec, seed=s1), dict(spec, seed=s2)
+            if fault.get("swap"):
+                first, second = second, first
+            require(L.make_cfg(first).to_fname() == L.make_cfg(second).to_fname(), "C11:harness:collision", "seeds do not collide")
+            fresh2 = _fp(_from_config(second, "unused", load_local=False, save_local=False))
+            _from_config(first, td)
+            path2 = os.path.join(td, L.make_cfg(second).to_fname() + ".zanj")
+            require(os.path.exists(path2), "C11:harness:collision-file", "the first request left no file under the shared name")
+            res = _verify_request(sig, second, td, path2, fresh2, allow_mismatch_error=True)
+            labels.append(res)
+            return {"nt": True, "labels": labels}
         elif kind == "foreign":
             other = L.json_copy(spec)
             fld = fault["field"]
@@ -314,6 +330,24 @@ def check(case: dict):
                 f.write(damaged)
         _verify_request(sig, spec, td, path, fresh)
     return {"nt": bool(damaged) and damaged != intact, "labels": labels}
+
+
+@lru_cache(maxsize=None)
+def _colliding_seeds(key: str, skip: int = 0):
+    """birthday search for two seeds whose configurations share a cache file name"""
+    spec = dict(POOL[key])
+    seen: dict = {}
+    found = 0
+    for sd in range(1000, 200000):
+        spec["seed"] = sd
+        f = L.make_cfg(spec).to_fname()
+        if f in seen:
+            if found == skip:
+                return seen[f], sd
+            found += 1
+        else:
+            seen[f] = sd
+    raise core.HarnessError("no file-name collision found")
 
 
 def _vary(spec, fld):
@@ -385,7 +419,7 @@ def _in_structure(data: bytes, k: int) -> bool:
 FOREIGN_FIELDS = ["seed", "grid_n", "ctor", "kwargs", "endpoint", "filters", "filter-args", "name", "n_mazes"]
 
 
-def _enumerated(keys, trunc_stride, corrupt_stride, modes, all_structure=True):
+def _enumerated(keys, trunc_stride, corrupt_stride, modes, all_structure=True, n_collisions=2):
     """every process enumerates the cache file *it* wrote (zip timestamps / compressed sizes differ between processes), taking the
     offsets k with k % nshards == shard of each fault family"""
 
@@ -415,6 +449,9 @@ def _enumerated(keys, trunc_stride, corrupt_stride, modes, all_structure=True):
             for j, fld in enumerate(FOREIGN_FIELDS):
                 if j % nshards == shard:
                     yield {"cfg": key, "fault": {"kind": "foreign", "field": fld}}
+            for j in range(n_collisions):
+                if (j + 9) % nshards == shard:
+                    yield {"cfg": key, "fault": {"kind": "collision", "skip": j // 2, "swap": bool(j % 2)}}
 
     return cases
 
@@ -433,7 +470,7 @@ def subs(tier: str):
         enum = _enumerated(keys, {"A-full": 4, "*": 32}, {"A-full": 11, "*": 47}, ["xorff", "xor01", "zero"])
     else:
         keys = list(POOL)
-        enum = _enumerated(keys, {"*": 1}, {"*": 1}, ["xorff", "xor01", "zero"])
+        enum = _enumerated(keys, {"*": 1}, {"*": 1}, ["xorff", "xor01", "zero"], n_collisions=8)
     return [
         Sub("enumerated-faults", check, "exhaustive", cases=enum, exhaustive_flag=not q),
         Sub("live-write-errors", check, "hypothesis", strategy=lambda: _live(keys), examples=12 if q else 150),
